@@ -80,6 +80,46 @@ func init() {
 }
 
 func init() {
+	known.Witnesses["FX-DEC-key-invalid-escape"] = func() (bool, string) {
+		var v struct{}
+		var err error
+		pv := rt.Guard(func() { err = gojson.Unmarshal([]byte(`{"`+"\\"+`a":null}`), &v) })
+		return pv != nil || err == nil, fmt.Sprintf("panic=%v err=%v", pv, err)
+	}
+	known.Witnesses["FX-PATH-assign-panics"] = func() (bool, string) {
+		p, _ := gojson.CreatePath("$")
+		var n stdjson.Number
+		var err error
+		pv := rt.Guard(func() { err = p.Unmarshal([]byte("false"), &n) })
+		return pv != nil, fmt.Sprintf("panic=%v err=%v", pv, err)
+	}
+	known.Witnesses["FX-PATH-get-nil-source"] = func() (bool, string) {
+		p, err := gojson.CreatePath("$..a.b")
+		if err != nil {
+			return false, "path rejected: " + err.Error()
+		}
+		var out interface{}
+		pv := rt.Guard(func() { err = p.Get(map[string]interface{}{"a": nil, "c": map[string]interface{}{"a": nil}}, &out) })
+		return pv != nil, fmt.Sprintf("panic=%v err=%v", pv, err)
+	}
+	known.Witnesses["FX-PATH-null-cast-panic"] = func() (bool, string) {
+		p, err := gojson.CreatePath("$.a")
+		if err != nil {
+			return true, err.Error()
+		}
+		var v struct{ A int }
+		pv := rt.Guard(func() { err = p.Unmarshal([]byte("null"), &v) })
+		return pv != nil, fmt.Sprintf("panic=%v err=%v", pv, err)
+	}
+	known.Witnesses["FX-PATH-get-struct-panic"] = func() (bool, string) {
+		p, err := gojson.CreatePath("$.A")
+		if err != nil {
+			return true, err.Error()
+		}
+		var v interface{}
+		pv := rt.Guard(func() { err = p.Get(struct{ A int }{1}, &v) })
+		return pv != nil, fmt.Sprintf("panic=%v err=%v v=%v", pv, err, v)
+	}
 	known.Witnesses["FX-STREAM-unmatched-key-escape-refill"] = func() (bool, string) {
 		doc := []byte(`{"":null,"aaaaaaaaaaaa` + "\\" + `"":null}`)
 		var v struct{}
